@@ -6,6 +6,7 @@ import (
 	"go/token"
 	"go/types"
 	"sort"
+	"strings"
 
 	"golang.org/x/tools/go/ssa"
 
@@ -24,6 +25,7 @@ func init() {
 		Explanation: "R1 co-update (loop-header φ comparison in the path evaluator — the function of package parsepath that ranges over a protopath.Path and moves a protoreflect.Value cursor): on every path round the loop, if the value cursor changes then the descriptor cursor changes too (a step may retarget the descriptor without moving the value, never the reverse). " +
 			"R3 exhaustiveness: the evaluator's step-kind switch covers every protopath.StepKind constant; the parser's token switch covers every token-kind constant of the package except those compared elsewhere (end of input) and has an error default; ParsePath returns a path only on a path dominated by the end-of-input test and a true state predicate. " +
 			"R5 raw renderings: InspectPayload / InspectSignature hand the field bytes (same access path as the endorsement field) to WriteBytesForm, and WriteBytesForm's raw arm writes its parameter itself. " +
+			"R6 numeral agreement (siblings): every strconv conversion of the stored text of a number token (list index, each map-key kind) reads it in the same base, so one spelling denotes one number whatever the step kind. " +
 			"Not covered: value equality with a field-by-field walk, panics inside protoreflect for ill-typed hand-built paths, scanner progress (regular-expression reasoning), agreement of parser and evaluator descriptor transfers beyond R1.",
 		Assumptions: []string{"go/types, go/ssa", "protoreflect accessors"},
 		Run:         runC19,
@@ -289,6 +291,69 @@ func runC19(c *Ctx) {
 		} else {
 			c.S.Unk("R3", "anchor:parsepath.ParsePath", "", "exported function not found")
 		}
+	}
+
+	// ---- R6 numeral agreement (siblings) ----
+	// every conversion of one literal-text field into an integer must read it in the same base
+	{
+		type site struct {
+			f    *ssa.Function
+			call ssa.CallInstruction
+			base int64
+			how  string
+		}
+		groups := map[string][]site{}
+		for _, f := range c.P.RepoFunctions() {
+			if load.RelPkg(f) != "gcetcbendorsement/parsepath" || c.isTestFunc(f) {
+				continue
+			}
+			for _, call := range callsIn(f, func(call ssa.CallInstruction) bool {
+				return calleeIs(call, "strconv.ParseInt") || calleeIs(call, "strconv.ParseUint") || calleeIs(call, "strconv.Atoi")
+			}) {
+				args := call.Common().Args
+				p := flow.PathOf(args[0])
+				if len(p.Fields) == 0 {
+					continue // not a stored literal (e.g. a scanner sub-match with an explicit base)
+				}
+				key := p.Root.Type().String() + "." + strings.Join(p.Fields, ".")
+				st := site{f: f, call: call, base: 10, how: "strconv.Atoi (decimal only)"}
+				if len(args) >= 2 {
+					k, ok := constInt(args[1])
+					if !ok {
+						c.S.Unk("R6", load.FuncName(f)+":base", c.pos(call.Pos()), "non-constant base")
+						continue
+					}
+					st.base, st.how = k, fmt.Sprintf("base %d", k)
+				}
+				groups[key] = append(groups[key], st)
+			}
+		}
+		nSites := 0
+		var keys []string
+		for k := range groups {
+			keys = append(keys, k)
+		}
+		sort.Strings(keys)
+		for _, k := range keys {
+			g := groups[k]
+			nSites += len(g)
+			// majority base is the reference; with a tie the first site
+			count := map[int64]int{}
+			for _, s := range g {
+				count[s.base]++
+			}
+			ref := g[0].base
+			for b, n := range count {
+				if n > count[ref] {
+					ref = b
+				}
+			}
+			for _, s := range g {
+				c.S.Check(s.base == ref, "R6", load.FuncName(s.f)+":numeral base", c.pos(s.call.Pos()), fmt.Sprintf("literal read with base %d like its %d sibling conversions", ref, len(g)-1),
+					fmt.Sprintf("the number literal is converted with %s here but with base %d at the %d other conversions of the same literal: the same spelling addresses a different element depending on the step kind", s.how, ref, count[ref]))
+			}
+		}
+		c.S.Floor("R6", "integer conversions of a stored number literal in parsepath", 5, nSites)
 	}
 
 	// ---- R5 raw renderings ----
